@@ -126,11 +126,15 @@ fn page_response(p: &Page) -> FatResponse {
     .with_compress(if p.compress { comprash::CompressPreference::Full } else { comprash::CompressPreference::None })
 }
 
-fn header_list(ae: Option<&X>) -> Option<Vec<X>> {
-    Some(match ae {
+fn header_list(ae: Option<&X>, more: &[X]) -> Option<Vec<X>> {
+    let mut v = match ae {
         Some(v) => vec![X::L(vec![X::b("accept-encoding"), X::b(v.as_b()?)])],
         None => vec![],
-    })
+    };
+    for m in more {
+        v.push(X::L(vec![X::b("accept-encoding"), X::b(m.as_b()?)]));
+    }
+    Some(v)
 }
 
 /// polls all futures in index order until every one has completed (no task is spawned: the
@@ -279,7 +283,7 @@ pub fn pipe(x: &X) -> X {
     for r in reqs {
         let g = (|| {
             let r = r.as_l()?;
-            if r.len() != 4 {
+            if r.len() != 5 {
                 return None;
             }
             let method: &'static [u8] = match r[2].as_n()? {
@@ -288,7 +292,7 @@ pub fn pipe(x: &X) -> X {
                 2 => b"POST",
                 _ => return None,
             };
-            Some((r[0].as_n()?, header_list(r[1].as_opt()?)?, method, r[3].as_n()? as usize))
+            Some((r[0].as_n()?, header_list(r[1].as_opt()?, r[4].as_l()?)?, method, r[3].as_n()? as usize))
         })();
         match g {
             Some(g) => groups.push(g),
